@@ -36,6 +36,8 @@ import (
 	"testing"
 	"testing/synctest"
 	"time"
+
+	"github.com/modelcontextprotocol/go-sdk/internal/jsonrpc2"
 )
 
 const ordFanURI = "file:///fan"
@@ -356,6 +358,8 @@ func ordRunFanCase(t *testing.T, out *verifOut, id string, c *ordCase) {
 		h := &ordH{t0: time.Now(), c: c, carrier: -1, mainTag: ordIgnore, cbres: map[int]string{}}
 		h.fan = &ordFanState{peerOfCS: map[*ClientSession]int{}, peerOfSS: map[*ServerSession]int{}, pending: map[string][]int{},
 			grpOfPtr: map[Params]int{}, copyID: map[int]map[int]int{}}
+		h.hookEnq()
+		defer func() { jsonrpc2.VerifHook = nil }()
 		for i, m := range c.msgs {
 			if m.of != 0 {
 				if h.fan.copyID[m.of] == nil {
@@ -559,7 +563,7 @@ func ordRunFanCase(t *testing.T, out *verifOut, id string, c *ordCase) {
 			if v, ok := per[i]["err"]; ok {
 				ret, e = v, "1"
 			}
-			obs := fmt.Sprintf("snd=%s ret=%s err=%s beg=%s fin=%s n=%d", get(i, "snd"), ret, e, get(i, "beg"), get(i, "fin"), cnt[i])
+			obs := fmt.Sprintf("snd=%s ret=%s err=%s beg=%s fin=%s n=%d enq=%s", get(i, "snd"), ret, e, get(i, "beg"), get(i, "fin"), cnt[i], get(i, "enq"))
 			tags := []string{"kind=" + string(m.kind), m.dir + ":" + m.meth, "tr=" + c.tr + "/" + string(m.kind)}
 			if e == "1" {
 				tags = append(tags, "senderr")
